@@ -13,7 +13,19 @@ import (
 	"fmt"
 	"go/token"
 	"go/types"
+
+	"golang.org/x/tools/go/ssa"
+	"golang.org/x/tools/go/ssa/ssautil"
 )
+
+var allFnCache map[*ssa.Function]bool
+
+func ssautilAllFunctions(p *ssa.Program) map[*ssa.Function]bool {
+	if allFnCache == nil {
+		allFnCache = ssautil.AllFunctions(p)
+	}
+	return allFnCache
+}
 
 type TeeObj struct {
 	Src PtrVal // stream cell
@@ -46,6 +58,18 @@ func init() {
 	extHandlers["io.TeeReader"] = extTeeReader
 	extHandlers["bufio.NewReader"] = extBufioNewReader
 	extHandlers["io.MultiReader"] = extMultiReader
+	extHandlers["(*image.YCbCr).YOffset"] = func(vc *VC, fr *Frame, st *State, args []Val, pos token.Pos) []Outcome {
+		return vc.planeOffset(fr, st, args, "(*image.YCbCr).YOffset", []int{0})
+	}
+	extHandlers["(*image.YCbCr).COffset"] = func(vc *VC, fr *Frame, st *State, args []Val, pos token.Pos) []Outcome {
+		return vc.planeOffset(fr, st, args, "(*image.YCbCr).COffset", []int{1, 2})
+	}
+	for name, bpp := range map[string]int64{"(*image.RGBA64).PixOffset": 8, "(*image.NRGBA64).PixOffset": 8, "(*image.RGBA).PixOffset": 4, "(*image.NRGBA).PixOffset": 4} {
+		bpp := bpp
+		extHandlers[name] = func(vc *VC, fr *Frame, st *State, args []Val, pos token.Pos) []Outcome {
+			return vc.pixOffset(st, args, bpp)
+		}
+	}
 }
 
 var extHandlersLate []func()
@@ -214,3 +238,80 @@ func (vc *VC) streamView(st *State, v Val) (Term, func(j Term) Term, Term, bool)
 }
 
 var _ = fmt.Sprintf
+
+
+// pixOffset: PixOffset(x, y) = (y-Rect.Min.Y)*Stride + (x-Rect.Min.X)*bpp, and (A-IMG: the
+// representation invariant of the image types) for every point inside Rect the pixel's
+// bytes lie inside Pix.
+func (vc *VC) pixOffset(st *State, args []Val, bpp int64) []Outcome {
+	vc.assume("A-IMG")
+	p := args[0].(PtrVal)
+	img := vc.load(st, p).(StructVal)
+	// image.RGBA{Pix []uint8; Stride int; Rect Rectangle{Min, Max Point{X, Y}}}
+	pix := img.F[0].(SliceVal)
+	stride := img.F[1].(Term)
+	rect := img.F[2].(StructVal)
+	mn, mx := rect.F[0].(StructVal), rect.F[1].(StructVal)
+	x, y := args[1].(Term), args[2].(Term)
+	// The offset is an abstract value determined by (image, x, y): the arithmetic
+	// (y-Min.Y)*Stride + (x-Min.X)*bpp is not needed by the step contracts and only slows
+	// the solvers down (64-bit multiplier). It is kept as an anchored axiom.
+	key := fmt.Sprintf("pixoff|%d|%s|%s|%s", p.Cell.ID, stride.E, x.E, y.E)
+	if vc.pureCache == nil {
+		vc.pureCache = map[string][]Val{}
+	}
+	var off Term
+	if c, ok := vc.pureCache[key]; ok {
+		off = c[0].(Term)
+	} else {
+		off = vc.freshTerm("pixoff", vc.intSort(64))
+		off.Signed = true
+		vc.pureCache[key] = []Val{off}
+		formula := vc.iAdd(vc.iMul(vc.iSub(y, mn.F[1].(Term)), stride), vc.iMul(vc.iSub(x, mn.F[0].(Term)), vc.idx(bpp)))
+		vc.decl(fmt.Sprintf("(assert (= %s %s)) ;anchor=%s", off.E, formula.E, "pixoffdef!"+off.E))
+	}
+	inside := And(vc.iLe(mn.F[0].(Term), x, true), vc.iLt(x, mx.F[0].(Term), true), vc.iLe(mn.F[1].(Term), y, true), vc.iLt(y, mx.F[1].(Term), true))
+	st.Fact(Implies(inside, And(vc.iLe(vc.idx(0), off, true), vc.iLe(vc.iAdd(off, vc.idx(bpp)), pix.Len, true), vc.iLe(off, vc.idxBig(maxLenBound), true))))
+	return one(st, off)
+}
+
+
+// planeOffset: YOffset/COffset of image.YCbCr are executed from the standard library source;
+// A-IMG adds that for points inside Rect the offset indexes the plane(s).
+// image.YCbCr{Y, Cb, Cr []uint8; YStride, CStride int; SubsampleRatio; Rect}
+func (vc *VC) planeOffset(fr *Frame, st *State, args []Val, name string, planes []int) []Outcome {
+	vc.assume("A-IMG")
+	vc.assume("A-STDSRC")
+	var fn *ssa.Function
+	for f := range ssautilAllFunctions(vc.eng.prog) {
+		if f.String() == name {
+			fn = f
+			break
+		}
+	}
+	if fn == nil {
+		panic(execError{"no SSA for " + name})
+	}
+	base := len(st.pc)
+	w0 := st.extWrites
+	pre := st.Clone()
+	outs := vc.mergePure(pre, base, w0, vc.callFunction(fn, args, nil, st, fr))
+	if len(outs) != 1 {
+		return outs
+	}
+	o := outs[0]
+	p := args[0].(PtrVal)
+	img := vc.load(o.St, p).(StructVal)
+	rect := img.F[6].(StructVal)
+	mn, mx := rect.F[0].(StructVal), rect.F[1].(StructVal)
+	x, y := args[1].(Term), args[2].(Term)
+	inside := And(vc.iLe(mn.F[0].(Term), x, true), vc.iLt(x, mx.F[0].(Term), true), vc.iLe(mn.F[1].(Term), y, true), vc.iLt(y, mx.F[1].(Term), true))
+	r := o.Ret[0].(Term)
+	var cs []Term
+	cs = append(cs, vc.iLe(vc.idx(0), r, true))
+	for _, k := range planes {
+		cs = append(cs, vc.iLt(r, img.F[k].(SliceVal).Len, true))
+	}
+	o.St.Fact(Implies(inside, And(cs...)))
+	return []Outcome{o}
+}
